@@ -1242,21 +1242,28 @@ impl<D: DependencyProvider, RT: AsyncRuntime> Solver<D, RT> {
         conflict: &mut Conflict,
         seen: &mut HashSet<ClauseId>,
     ) {
-        let clause = &clauses[clause_id.to_usize()];
-        match clause {
-            Clause::Learnt(learnt_clause_id) => {
-                if !seen.insert(clause_id) {
-                    return;
-                }
+        // The chain of learnt clauses that were derived from other learnt clauses
+        // can be as long as the number of conflicts, so walk it with an explicit
+        // stack instead of recursing (same depth-first, left-to-right order).
+        let mut stack = vec![clause_id];
+        while let Some(clause_id) = stack.pop() {
+            match &clauses[clause_id.to_usize()] {
+                Clause::Learnt(learnt_clause_id) => {
+                    if !seen.insert(clause_id) {
+                        continue;
+                    }
 
-                for &cause in learnt_why
-                    .get(*learnt_clause_id)
-                    .expect("no cause for learnt clause available")
-                {
-                    Self::analyze_unsolvable_clause(clauses, learnt_why, cause, conflict, seen);
+                    stack.extend(
+                        learnt_why
+                            .get(*learnt_clause_id)
+                            .expect("no cause for learnt clause available")
+                            .iter()
+                            .rev()
+                            .copied(),
+                    );
                 }
+                _ => conflict.add_clause(clause_id),
             }
-            _ => conflict.add_clause(clause_id),
         }
     }
 
